@@ -19,15 +19,20 @@ fn oracle_bytes(or: &mut Oracle, bs: &[u8], prefixes: bool) {
     let r = catch(|| decode_all(bs));
     let (ps, rest) = match r { Ok(x) => x, Err(p) => { or.fail(format!("decoder panicked: {p}"), format!("# case flat-oracle\nnv.all {}", hexd(bs)), format!("panic:{}", hexd(bs))); return; } };
     // yields only complete pairs that re-encode to the consumed prefix (allowing non-canonical length prefixes: compare structure)
-    let consumed = bs.len() - rest;
+    let consumed = bs.len().saturating_sub(rest);
     let mut pos = 0usize;
     for (n, v) in &ps {
-        // parse the two length prefixes independently
+        // parse the two length prefixes independently (bounds-checked: a wrong decoder must yield a failure, not crash the oracle)
         let mut lens = [0usize; 2];
+        let mut short = false;
         for l in lens.iter_mut() {
-            if bs[pos] < 128 { *l = bs[pos] as usize; pos += 1; } else { *l = (((bs[pos] & 0x7f) as usize) << 24) | ((bs[pos + 1] as usize) << 16) | ((bs[pos + 2] as usize) << 8) | bs[pos + 3] as usize; pos += 4; }
+            match bs.get(pos) {
+                Some(&b) if b < 128 => { *l = b as usize; pos += 1; }
+                Some(&b) if pos + 4 <= bs.len() => { *l = (((b & 0x7f) as usize) << 24) | ((bs[pos + 1] as usize) << 16) | ((bs[pos + 2] as usize) << 8) | bs[pos + 3] as usize; pos += 4; }
+                _ => { short = true; break; }
+            }
         }
-        let ok = lens[0] == n.len() && lens[1] == v.len() && &bs[pos..pos + n.len()] == &n[..] && &bs[pos + n.len()..pos + n.len() + v.len()] == &v[..];
+        let ok = !short && lens[0] == n.len() && lens[1] == v.len() && bs.get(pos..pos + n.len()) == Some(&n[..]) && bs.get(pos + n.len()..pos + n.len() + v.len()) == Some(&v[..]);
         if !ok { or.fail("decoded pair is not the consecutive sub-slices announced by its length prefixes".into(), format!("# case flat-oracle\nnv.all {}", hexd(bs)), format!("subslice:{}", hexd(bs))); return; }
         pos += n.len() + v.len();
     }
